@@ -1,5 +1,6 @@
 From Coq Require Import QArith List String Bool.
 From FV Require Import Base.Ser Base.Res C09.Model.
+From FV Require C09.ModelCache.
 Import ListNotations.
 Open Scope string_scope.
 Global Instance De_lim : De lim :=
@@ -9,6 +10,13 @@ Global Instance De_lim : De lim :=
 Definition renorm (L : lim) (v : Q) : Q := Qred (renormalizeValue L v).
 Definition interp_at (masters : list Q) (weights : list (list Q)) (scalars : list Q) : list Q * Q :=
   (map Qred (getDeltas masters weights), Qred (interpolate (getDeltas masters weights) scalars)).
+Global Instance De_vmop : De ModelCache.op :=
+  fun l => match l with
+           | k :: r =>
+             if (k =? 0)%Z then match de r with Some (x, r') => Some (ModelCache.GetSub x, r') | None => None end
+             else match de r with Some (x, r') => Some (ModelCache.Reorder x, r') | None => None end
+           | [] => None end.
+Definition vm_history (d : Z) (srt org : list Z) (ops : list ModelCache.op) := ModelCache.run_model d srt org ops.
 Definition reg : registry := [
   ("normalizeValue", run4 normalizeValue);
   ("tentval", run2 tentval);
@@ -16,6 +24,7 @@ Definition reg : registry := [
   ("piecewiseLinearMap", run2 piecewiseLinearMap);
   ("renormalizeValue", run2 renorm);
   ("rebaseTent", run2 rebaseTent);
-  ("interp_at", run3 interp_at)
+  ("interp_at", run3 interp_at);
+  ("vm_history", run4 vm_history)
 ].
 Definition fv_entry := dispatch reg.
